@@ -246,7 +246,7 @@ func ProofsSigAll(proofs cashu.Proofs) bool {
 	for _, proof := range proofs {
 		secret, err := nut10.DeserializeSecret(proof.Secret)
 		if err != nil {
-			return false
+			continue
 		}
 
 		if IsSigAll(secret) {
